@@ -586,3 +586,31 @@ def is_K1(lines):
     """a switch_s whose outer cell's update depends, within one transaction, on the switch's own output"""
     d, _ = analyze(lines)
     return any(v["op"] == "switch_s" and inst_reach(d, v["outer"], h) for h, v in d.items())
+
+
+def full_reach(d, sel_of, a, b, seen=None):
+    """reachability through every kind of reference an object holds: dependencies, cells it reads, the source of
+    a defer/split, the outer cell of a switch, and the handles stored as values in ref-valued cells/streams"""
+    if a == b:
+        return True
+    seen = seen if seen is not None else set()
+    if a in seen or a not in d:
+        return False
+    seen.add(a)
+    v = d[a]
+    nxt = list(v["deps"]) + list(v.get("reads", [])) + ([v["src"]] if "src" in v else []) + \
+        ([v["outer"]] if "outer" in v else []) + list(sel_of.get(a, []))
+    return any(full_reach(d, sel_of, x, b, seen) for x in nxt)
+
+
+def is_K5(lines):
+    """a cell (or stream) whose values are stream/cell handles, one of which reaches that very object"""
+    d, sel_of = analyze(lines)
+    return any(any(full_reach(d, sel_of, c, x) for c in cands) for x, cands in sel_of.items())
+
+
+def is_K3_leak(lines):
+    """a switch_c whose outer cell depends (through any reference) on the switch's own result: until the result is
+    first sampled or updated its initial thunk holds the outer cell, a reference no tracer reports"""
+    d, sel_of = analyze(lines)
+    return any(v["op"] == "switch_c" and full_reach(d, sel_of, v["outer"], h) for h, v in d.items())
